@@ -221,6 +221,8 @@ def parse_obs(o):
                     d["closed"] = f[1] == "1"
                 elif f[0] == "counters":
                     d["counters"] = (int(f[1]), int(f[2]))
+                elif f[0] == "admin":
+                    d["admin"] = f[1] if len(f) > 1 else ""
             res["peers"][it[1]] = d
         elif it[0] == "rib":
             for e in it[1:]:
